@@ -120,10 +120,11 @@ theorem family_filter_order_tie :
       ["λ:memDB.Filter", "λ:errors.Is", "λ:append", "mutex.Lock", "defer:mutex.Unlock", "memFilter", "memFilter"] := by
   decide
 
-/-- the `DownSampling` loop statement by statement (model: `dsLoop`). -/
+/-- the `DownSampling` loop statement by statement (model: `dsLoop`, which iterates over `Nat`: since fix c32ac93
+the loop variable is an `int`, so the model's unbounded iteration is also what the code does at slot 65535). -/
 theorem downsampling_loop_tie :
     Generated.C11.downSamplingLoop =
-      ["for movingSourceSlot := source.Start; movingSourceSlot <= source.End; movingSourceSlot++",
+      ["for slot := int(source.Start); slot <= int(source.End); slot++", "movingSourceSlot := uint16(slot)",
        "value, ok := getter.GetValue(movingSourceSlot)", "if !ok { continue }",
        "if movingSourceSlot < start { continue }", "if movingSourceSlot > end { break }",
        "targetSlot := (baseSlot + int(movingSourceSlot)) / intervalRatio", "emitValue(targetSlot, value)"] := by
@@ -1142,31 +1143,31 @@ theorem select_item_eq_naive_any_function_partial (w : Nat) (hw : 0 < w) (sch : 
 
 /-! ## the flushed metric block: series buckets per roaring high key, offsets and their bases
 
-`Model/MetricBlock.lean` mirrors `metricsdata.flusher` / `metricReader` at the level of positions.
+`Model/BlockLayout.lean` mirrors `metricsdata.flusher` / `metricReader` at the level of positions.
 The field offsets of a series entry are taken against `Level4.startAt`; the deferred function of
 `FlushSeries` re-bases it to the writer's position after every series, and the high-key branch must
 re-base it AGAIN after it wrote the previous bucket's footer. -/
 
-open LinVerif.MetricBlock LinVerif.Lemmas.C11Block in
+open LinVerif.BlockLayout LinVerif.Lemmas.C11Block in
 /-- the field-offset base is the writer's position and no field offset is pending. -/
-def Rebased (w : LinVerif.MetricBlock.W) : Prop := w.l4 = w.size ∧ w.fOffs = []
+def Rebased (w : LinVerif.BlockLayout.W) : Prop := w.l4 = w.size ∧ w.fOffs = []
 
-open LinVerif.MetricBlock LinVerif.Lemmas.C11Block in
+open LinVerif.BlockLayout LinVerif.Lemmas.C11Block in
 /-- `FlushSeries` re-establishes `Rebased` (the deferred function) … -/
-theorem flushSeries_rebased (c : LinVerif.MetricBlock.Cfg) (e : Enc) (nf : Nat) (w : W) (sid : Nat) (flds : List Nat) :
+theorem flushSeries_rebased (c : LinVerif.BlockLayout.Cfg) (e : Enc) (nf : Nat) (w : W) (sid : Nat) (flds : List Nat) :
     Rebased (flushSeries c e nf w sid flds) := by
   unfold flushSeries Rebased
   split <;> simp
 
-open LinVerif.MetricBlock LinVerif.Lemmas.C11Block in
+open LinVerif.BlockLayout LinVerif.Lemmas.C11Block in
 /-- … hence it holds before EVERY series of ANY metric block (any ids, any number of containers). -/
-theorem block_writer_rebased (c : LinVerif.MetricBlock.Cfg) (e : Enc) (nf : Nat) (series : List (Nat × List Nat)) (w : W)
+theorem block_writer_rebased (c : LinVerif.BlockLayout.Cfg) (e : Enc) (nf : Nat) (series : List (Nat × List Nat)) (w : W)
     (h : Rebased w) : Rebased (series.foldl (fun w s => flushSeries c e nf w s.1 s.2) w) := by
   induction series generalizing w with
   | nil => exact h
   | cons s rest ih => exact ih _ (flushSeries_rebased c e nf w s.1 s.2)
 
-open LinVerif.MetricBlock LinVerif.Lemmas.C11Block in
+open LinVerif.BlockLayout LinVerif.Lemmas.C11Block in
 /-- SERIES ENTRY ROUND TRIP, every series of every block: whatever was flushed before (`Rebased`
 holds by `block_writer_rebased`), whichever branch `FlushSeries` takes (same high key / first high
 key / ANOTHER high key: previous bucket's footer, new bucket), the entry it writes — from the
@@ -1198,7 +1199,7 @@ theorem block_series_entry_roundtrip (e : Enc) (hu : ∀ n, 0 < e.uvarLen n) (nf
   simp only [w1, w2, h2]
   exact this
 
-open LinVerif.MetricBlock LinVerif.Lemmas.C11Block in
+open LinVerif.BlockLayout LinVerif.Lemmas.C11Block in
 /-- non-vacuity + the whole block, executable: five series in three containers (65535 | 65536,
 65537 | 131072, 131073), three fields, one series without any data and one with an empty field:
 every field block is read back where it was written; also with one field. -/
@@ -1413,7 +1414,7 @@ theorem rate_of_nil_array_panics :
 
 /-! ### the metric block without the re-base; the shared field entry -/
 
-open LinVerif.MetricBlock in
+open LinVerif.BlockLayout in
 /-- the code of seeded change c11-20 (`Level4.startAt` not re-based after the bucket footer): two
 fields, series 65535 | 65536, 65537 | 131072 — exactly the first series of the 2nd and 3rd bucket
 are not read back; the current code reads all of them; a one-field metric is not affected. -/
